@@ -85,6 +85,11 @@ func oracleC20(c *Case, res *Result) []Violation {
 			cold = true
 		}
 	}
+	for _, f := range res.Sim.Fired {
+		if f.Kind == "lost" || f.Kind == "miss" {
+			cold = true // an injected cache loss puts that reader where a cold cache would: it refills from disk
+		}
+	}
 	for pi, ph := range c.Phases {
 		if ph.Kind != "group" {
 			continue
@@ -102,9 +107,6 @@ func oracleC20(c *Case, res *Result) []Violation {
 			if tr == nil {
 				continue
 			}
-			if tr.Outcome == "panic" {
-				return append(vs, Violation{Class: panicClass(tr.Panic), Msg: tr.Panic})
-			}
 			nconc := len(ph.Txns) - 1
 			tag = fmt.Sprintf("/concurrent-readers%d", nconc)
 			if cold {
@@ -114,6 +116,21 @@ func oracleC20(c *Case, res *Result) []Violation {
 				tag += "/capacity1" // L1 MRU or in-memory L2 shard limited to a single entry
 			} else if c.L1Max > 0 || c.Shard > 0 {
 				tag += "/smallcache" // L1 capacity 2..8 and/or L2 shard capacity 2..4: entries get evicted mid-transaction
+			}
+			expiry := 900
+			for _, sp := range c.Stores {
+				if sp.CacheMode == 1 {
+					expiry = 60 // this store caches for one minute
+				}
+			}
+			for _, p2 := range c.Phases[:pi] {
+				if p2.Kind == "advance" && p2.Seconds >= expiry {
+					tag += "/after-expiry" // the clock went past the cache durations before this round
+					break
+				}
+			}
+			if tr.Outcome == "panic" {
+				return append(vs, Violation{Class: panicClass(tr.Panic) + tag, Msg: tr.Panic})
 			}
 			if tr.Outcome == "committed" {
 				if skip := m.ApplyTxnObserved(c, &ph.Txns[0], tr); len(skip) > 0 {
